@@ -3,7 +3,7 @@ from common import *
 
 ID = "C26"
 GEN = []
-THEOREMS = ["C26_length", "C26_index", "C26_insert", "C26_slice", "C26_slice_error_class", "C26_refuted_slice",
+THEOREMS = ["C26_length", "C26_index", "C26_insert", "C26_slice", "C26_slice_empty_range",
             "C26_case", "C26_quotes"]
 COQ_HEADER = ("From Coq Require Import String List NArith ZArith.\nFrom RV Require Import Model.CssStr Run.C26.\n"
               "Import ListNotations.\nLocal Open Scope list_scope.")
@@ -142,7 +142,7 @@ def coq_term(c, io):
     return f"(mkCase ({call_term(c)}) {impl})"
 
 
-KCLASS = {0: None, 1: "known_C26_K1_slice_start_after_end"}
+KCLASS = {0: None}
 
 
 def judge(c, io, r):
@@ -167,7 +167,7 @@ def shrink(c):
 
 LEVEL_TEXT = ("proof: sass/functions/string.rs modelled on code-point lists; for ALL strings and ALL integer indices: index is "
               "the first occurrence (1-based) or null, insert and slice equal the reference semantics (clamping, negative "
-              "positions from the end) outside the one error class of slice, case functions change ASCII letters only, "
+              "positions from the end), case functions change ASCII letters only, "
               "quotedness is kept; tied to rsass by byte-exact results on generated calls")
-LEVEL_NOTE = "str-slice with a computed start after the computed end is an error instead of the empty string (F25): refuted clause, known finding"
+LEVEL_NOTE = "F25 (slice error on an empty range) was fixed in /repo by 2bc7a76; the slice theorem is now unconditional"
 TECHNIQUE = "Coq proof (induction over lists, linear arithmetic over Z/nat) + differential correspondence"
